@@ -32,7 +32,7 @@ FAIL_MENU = {
 
 class Scenario:
     def __init__(self, name, files, check=False, lock=None, structured=None, use_cache=None, extensions=None,
-                 macros=None, raw_files=None, config_text=None):
+                 macros=None, raw_files=None, config_text=None, extras=()):
         self.name = name
         self.files = files            # rel path under proj/src -> str/bytes
         self.check = check
@@ -41,6 +41,7 @@ class Scenario:
             "./src", structured=structured, use_cache=use_cache, extensions=extensions, macros=macros)
         self.raw_files = raw_files or {}   # rel path under proj/ (non-source, e.g. README)
         self.use_cache = True if use_cache is None else use_cache
+        self.extras = tuple(extras)   # "symlinks", "lockdir", "noconfig"
 
     def materialise(self, work):
         proj = os.path.join(work, "proj")
@@ -57,6 +58,14 @@ class Scenario:
         if self.lock is not None:
             with open(os.path.join(proj, "Breadlog.lock"), "w") as f:
                 f.write(cli.lock_yaml(self.lock) if isinstance(self.lock, int) else self.lock)
+        if "symlinks" in self.extras:
+            os.symlink("a.rs", os.path.join(proj, "src", "ln.rs"))
+            os.symlink("../../outside/o.rs", os.path.join(proj, "src", "out.rs"))
+            os.symlink("../../outside", os.path.join(proj, "src", "lnd"))
+        if "lockdir" in self.extras:
+            os.makedirs(os.path.join(proj, "Breadlog.lock"))
+        if "noconfig" in self.extras:
+            os.unlink(os.path.join(proj, "Breadlog.yaml"))
         return proj
 
     def source_bytes(self):
@@ -86,7 +95,7 @@ _WORK_BASE = None
 def _init_worker(base):
     global _WORK_BASE
     _WORK_BASE = base
-    signal.signal(signal.SIGINT, signal.SIG_IGN)
+    # NB: never ignore SIGINT here - an ignored disposition is inherited by the subject across exec
 
 
 def execute(args):
@@ -217,7 +226,7 @@ class Explorer:
                         continue
                     if o.k <= last:
                         continue
-                    if op_filter and not op_filter(o, depth):
+                    if op_filter and not op_filter(o, depth, x):
                         continue
                     for a in actions_for(o, this_menu):
                         plans.append(plan + [(o.k, a)])
